@@ -68,6 +68,13 @@ def cases(tier, seed):
                 c = dict(base)
                 c.update({'prec': prec, 'max_full': max_full, 'ls': ls, 'x0': 'exact', 'sidx': 0})
                 cs.append(c)
+    # directed: larger Laplacians at tight eps with forced iterative local solves - local Krylov solves that need restarts
+    big = [[12, 12, 12], [8, 12, 12]] if not T else [[12, 12, 12], [8, 12, 12], [12, 12, 6], [10, 12, 12], [6, 6, 6, 6]]
+    for N in big:
+        for (prec, ls) in ((None, 1), (None, 2), ('c', 1)):
+            for j in range(1 if not T else 3):
+                cs.append({'gen': 'solve', 'cls': 'lap', 'N': N, 'RB': [1] * (len(N) + 1), 'Rb': [1] + [2] * (len(N) - 1) + [1], 'rhs': 'random', 'cfac': 1.0, 'shift': 0.0,
+                           'eps': 1e-10, 'vseed': 777 + j, 'prec': prec, 'max_full': 0, 'ls': ls, 'x0': 'none', 'sidx': j})
     return cs
 
 
